@@ -87,6 +87,9 @@ func (g *Global) checkWhitelist(wl *Whitelist) []*Obligation {
 				// wrappers and thunks forward to the real method: look through them
 				continue
 			}
+			if wl.RainOnly && !isRainFn(fn) {
+				continue
+			}
 			for _, b := range fn.Blocks {
 				for _, in := range b.Instrs {
 					if ci, ok := in.(ssa.CallInstruction); ok {
@@ -108,7 +111,8 @@ func (g *Global) checkWhitelist(wl *Whitelist) []*Obligation {
 						if !ok {
 							continue
 						}
-						if ci, isCall := in.(ssa.CallInstruction); isCall && i == 0 && ci.Common().Value == f {
+						_ = i
+						if ci, isCall := in.(ssa.CallInstruction); isCall && ci.Common().Value == f {
 							continue
 						}
 						names := []string{fnID(f), shortID(fnID(f))}
